@@ -32,6 +32,7 @@ type Step struct {
 	ResMsg  *refwire.Msg `json:",omitempty"` // the handler's result (an R message), or
 	ErrText string       `json:",omitempty"` // the handler's error
 	Plain   bool         `json:",omitempty"` // error is a plain Go error rather than MessageRerror
+	ErrKind string       `json:",omitempty"` // special error values: canceled | deadline | wrap9p (see Outcome)
 
 	// flush
 	Target  string `json:",omitempty"` // parked | answered | unused | flushed (flush the same tag twice)
@@ -339,8 +340,12 @@ func (e *engine) release(r *req, st Step) {
 		r.result = c
 	} else {
 		text := fmt.Sprintf("E%08x:%s", r.marker, st.ErrText)
-		out.ErrText, out.Plain = text, st.Plain
-		r.result = refwire.Canon(&refwire.Msg{Kind: refwire.Rerror, Tag: r.tag, Ename: harn.B(text)})
+		out.ErrText, out.Plain, out.ErrKind = text, st.Plain, st.ErrKind
+		_, want := ErrorOf(out)
+		r.result = refwire.Canon(&refwire.Msg{Kind: refwire.Rerror, Tag: r.tag, Ename: harn.B(want)})
+		if st.ErrKind != "" {
+			e.classes["err_"+st.ErrKind] = true
+		}
 	}
 	r.released = true
 	e.relCount++
